@@ -11,6 +11,9 @@ Correspondence (every run, on the compiler built from the current tree):
      (= run_direct), the blocking fixpoint (= Decl.Blocking read from the compiled archives through the
      overlay harness) and flatten (= the skeleton of case labels / jumps / resume points / returns read off
      the emitted JavaScript); `var {..} = $restore` and `$f = {..}` must list the same variables.
+ (A') phase 4: the same for programs with `for k = range <slice>` loops (c02_p4.RangeGen, coq/Model/C02_P4_Range.v,
+     coq/Corr/C02_P4_Eval.v): all of (A) on the translator's reduction of range to a looping statement, plus the
+     extended language's direct semantics rexec against the observation and against run_flat (rcompile p).
  (B) programs OUTSIDE the fragment (c02_rich): all call kinds and expression/statement positions; oracle:
      mask invariance, native Go, and (programs with statically resolved calls only) the direct variant.
  (C) compile-only call-graph programs: Decl.Blocking vs. reachability of a direct blocker (soundness, decided
@@ -24,10 +27,11 @@ import json, os, re, threading
 import common as C
 import c02_minigo as G
 import c02_rich as R
+import c02_p4 as P4
 
 ID = "C02"
 PROPS_FILE = "Props/C02.v"
-MODEL_TARGETS = ["Corr/C02_Eval.v"]
+MODEL_TARGETS = ["Corr/C02_Eval.v", "Corr/C02_P4_Eval.v"]
 ALLOWED_AXIOMS = []
 RULE = ("(A) MiniGo programs: 1-4 functions + step/nstep helpers, call DAG plus guarded recursion, nested if/else, for with "
         "init/cond/post (post and init may be blocking calls), labelled and unlabelled break/continue, early returns, globals, "
@@ -39,8 +43,14 @@ RULE = ("(A) MiniGo programs: 1-4 functions + step/nstep helpers, call DAG plus 
         "with closures over the loop variable, goto loops, defers with named results, panic/recover. (C) call graphs of 10-18 "
         "functions over two packages with static/go/defer/literal/variable/interface/method-value calls and channel operations. "
         "(E) 14 expression statements per program: trees of depth <= 3 over leaves, +, and calls (blocking or not) with 0-3 arguments; "
-        "a quarter are index assignments with calls on both sides.")
-TRUSTED = ["hand-written model of the translator's Flattened-mode branches, the call resume pattern, $restore/$f frames and the $go "
+        "a quarter are index assignments with calls on both sides. (A') phase 4: MiniGo programs in which more than half of the loops "
+        "are `for k = range make([]struct{}, e)` (with and without key, labelled, nested in and around for loops; e = (a*a + c) % 4 over a "
+        "variable the body may overwrite; break/continue/labelled continue inside) — same oracles and the same five model comparisons "
+        "as (A) on the translator's reduction, plus the extended language's own direct semantics rexec.")
+TRUSTED = ["hand-written model of the reduction of a slice range statement to translateLoopingStmt (coq/Model/C02_P4_Range.v: desugar; frame slots "
+           "_ref/_i explicit in the direct semantics rexec), tied by (A'): emitted skeleton = flatten (desugar p), outputs under all masks = "
+           "native Go = run_rdirect = run_flat (rcompile p) under the schedules",
+           "hand-written model of the translator's Flattened-mode branches, the call resume pattern, $restore/$f frames and the $go "
            "resumption loop (coq/Model/C02_Flat.v) and of propagateFunctionBlocking (coq/Model/C02_Blocking.v), tied by this correspondence",
            "the schedule oracle abstracts channel readiness: one consultation per dynamic receive",
            "hand-written model of call hoisting in expressions (coq/Model/C02_Hoist.v: translateCall, translateArgs, translateAssign), tied by (E)",
@@ -48,7 +58,8 @@ TRUSTED = ["hand-written model of the translator's Flattened-mode branches, the 
            "overlay harness harness/go/repo_overlay/compiler/verifharness/c02 (build.Session -> Decl.Blocking)",
            "native Go 1.23 (go.mod go 1.20) as reference for the source semantics; Node.js as the JavaScript engine"]
 ASSUMPTIONS = ["no other goroutine is runnable while the observed goroutine is suspended (yield's helper only completes the receive)",
-               "integer values stay below 2^31 (the generators bound every stored value by % 997)"]
+               "integer values stay below 2^31 (the generators bound every stored value by % 997)",
+               "range programs: the slice length expression is non-negative (make would panic otherwise; the generator guarantees it)"]
 
 ALL = (1 << 30) - 1
 # VERIF_C02_SCALE multiplies the case counts (used only to try mutations quickly on a loaded machine; default 1)
@@ -183,6 +194,7 @@ def harness_decls(ctx, dirs):
 # ---------------------------------------------------------------- Coq evaluation
 
 HEADER = ("From Coq Require Import List ZArith Bool.\nFrom Verif Require Import Model.C02_Blocking Model.C02_Flat Model.C02_Hoist Corr.C02_Eval.\n"
+          "From Verif Require Import Model.C02_P4_Range Corr.C02_P4_Eval.\n"
           "Import ListNotations.\n")
 
 
@@ -224,6 +236,24 @@ def gen_modelled(ctx, n):
     return progs
 
 
+def gen_range(ctx, n):
+    """phase 4 (b): MiniGo programs in which at least one loop is a range loop"""
+    r = ctx.rng("range-programs")
+    progs = []
+    while len(progs) < n:
+        p = P4.generate_range(r, size=r.choice([8, 14, 14, 20]))
+        if not P4.has_kind(p, "range"):
+            continue
+        res = G.interpret(p)
+        if res is None:
+            continue
+        if res[3] < 1 and r.random() < 0.9:
+            continue
+        p["expect"] = res
+        progs.append(p)
+    return progs
+
+
 def construct_counts(p, cnt):
     def walk(body, inloop):
         for s in body:
@@ -241,6 +271,12 @@ def construct_counts(p, cnt):
                 if s[2] and s[2][0] == "call":
                     cnt["for-init-call"] = cnt.get("for-init-call", 0) + 1
                 walk(s[5], True)
+            elif t == "range":
+                if s[1] is not None:
+                    cnt["labelled-range"] = cnt.get("labelled-range", 0) + 1
+                if s[2] is None:
+                    cnt["range-without-key"] = cnt.get("range-without-key", 0) + 1
+                walk(s[6], True)
             elif t in ("break", "continue") and s[1] is not None:
                 cnt["labelled-" + t] = cnt.get("labelled-" + t, 0) + 1
     for fn in p["fns"]:
@@ -285,18 +321,24 @@ def check_runs(ctx, kind, idx, text, res, native, direct, replay, sig_prefix, cl
     return runs
 
 
-def modelled_verdict(ctx, progs, results, native, decls):
+FLAVOR_MODELLED = dict(kind="modelled", dirp="m", rec="pcase", pre="pc", mism="pmismatches", coq_prog=G.coq_prog, sched_stream="schedules")
+# phase 4 (b): programs with range loops; the record is Corr/C02_P4_Eval.rcase, the program an [rprog]
+FLAVOR_RANGE = dict(kind="range", dirp="q", rec="rcase", pre="rc", mism="rmismatches", coq_prog=P4.r_prog, sched_stream="schedules-range")
+
+
+def modelled_verdict(ctx, progs, results, native, decls, fl=FLAVOR_MODELLED):
     vcases, index = [], []
-    sr = ctx.rng("schedules")
+    kind, pre = fl["kind"], fl["pre"]
+    sr = ctx.rng(fl["sched_stream"])
     stats = dict(blocking_functions=0, direct_functions=0, skeleton_tokens=0, frames_checked=0, dynamic_yields=0)
     for i, (p, (rb, rd, js)) in enumerate(zip(progs, results)):
         nf = len(p["fns"])
-        ctx.count(["modelled", p["src"]], nontrivial=p["expect"][3] >= 1)
+        ctx.count([kind, p["src"]], nontrivial=p["expect"][3] >= 1)
         stats["dynamic_yields"] += p["expect"][3]
-        replay = dict(kind="modelled", source=p["src"], program=dict(fns=p["fns"], nglob=p["nglob"], args=p["args"]))
-        runs = check_runs(ctx, "modelled", i, p["src"], rb, native.get(p["nat"]), rd, replay, "modelled-")
+        replay = dict(kind=kind, source=p["src"], program=dict(fns=p["fns"], nglob=p["nglob"], args=p["args"]))
+        runs = check_runs(ctx, kind, i, p["src"], rb, native.get(p["nat"]), rd, replay, kind + "-")
         if i < 2:
-            ctx.sample(dict(kind="modelled", source=p["src"], output_mask0=runs[0] if runs else None))
+            ctx.sample(dict(kind=kind, source=p["src"], output_mask0=runs[0] if runs else None))
         if not runs:
             continue
         # reference interpreter (sanity of the generator's own expectation)
@@ -304,10 +346,10 @@ def modelled_verdict(ctx, progs, results, native, decls):
             out = [int(x) for x in runs[0][0].split()]
             ret = int(runs[0][1].strip())
         except ValueError:
-            ctx.violation("modelled-output-unparsable", "output is not a list of integers", dict(replay, run=runs[0]))
+            ctx.violation(kind + "-output-unparsable", "output is not a list of integers", dict(replay, run=runs[0]))
             continue
         if (out, ret) != (p["expect"][0], p["expect"][1]):
-            ctx.violation("modelled-reference-interpreter-disagrees", "python reference interpreter and the compiled program disagree "
+            ctx.violation(kind + "-reference-interpreter-disagrees", "python reference interpreter and the compiled program disagree "
                           "(native Go agrees with the program: fix harness/py/c02_minigo.py)", dict(replay, expect=p["expect"][:2], got=[out, ret]), concrete=False)
         # frames and skeletons from the emitted JavaScript
         fns = G.js_functions(js)
@@ -332,33 +374,33 @@ def modelled_verdict(ctx, progs, results, native, decls):
             else:
                 stats["direct_functions"] += 1
         # Decl.Blocking
-        herr, dmap = decls.get(os.path.join(ctx.work, "m%d" % i), ("missing", {}))
+        herr, dmap = decls.get(os.path.join(ctx.work, "%s%d" % (fl["dirp"], i)), ("missing", {}))
         flags = []
         for fi in range(nf):
             flags.append(dmap.get("func:..%s" % G.fname(p, fi)))
         if herr == "infrastructure":
             continue
         if herr or any(f is None for f in flags):
-            ctx.violation("modelled-harness-failed", "overlay harness could not read Decl.Blocking: %s" % herr[:300], dict(replay), concrete=False)
+            ctx.violation(kind + "-harness-failed", "overlay harness could not read Decl.Blocking: %s" % herr[:300], dict(replay), concrete=False)
             continue
         scheds = ["None", "(Some [])"]
         for _ in range(3 if ctx.quick else 6):
             ln = sr.randint(1, max(2, min(40, p["expect"][3] + 2)))
             scheds.append("(Some %s)" % coq_bools([sr.random() < 0.5 for _ in range(ln)]))
-        vcases.append("{| pc_prog := %s;\n   pc_nglob := %s; pc_main := 0%%nat; pc_args := [%s]; pc_out := [%s]; pc_ret := %s;\n"
-                      "   pc_blocking := %s;\n   pc_skel := [%s];\n   pc_live := %s;\n   pc_scheds := [%s] |}" % (
-                          G.coq_prog(p), G.nc(p["nglob"]), "; ".join(G.zc(a) for a in p["args"]), "; ".join(G.zc(v) for v in out), G.zc(ret),
+        vcases.append(("{| pc_prog := %s;\n   pc_nglob := %s; pc_main := 0%%nat; pc_args := [%s]; pc_out := [%s]; pc_ret := %s;\n"
+                       "   pc_blocking := %s;\n   pc_skel := [%s];\n   pc_live := %s;\n   pc_scheds := [%s] |}").replace("pc_", pre + "_") % (
+                          fl["coq_prog"](p), G.nc(p["nglob"]), "; ".join(G.zc(a) for a in p["args"]), "; ".join(G.zc(v) for v in out), G.zc(ret),
                           coq_bools(flags),
                           "; ".join("None" if sk is None else "Some %s" % G.coq_toks(sk) for sk in skels),
                           coq_bools(live), "; ".join(scheds)))
         index.append(i)
-    ctx.cov["modelled_stats"] = stats
+    ctx.cov[kind + "_stats"] = stats
 
     shard = 12
     shards = [vcases[k:k + shard] for k in range(0, len(vcases), shard)]
 
     def run_shard(k):
-        val, err = coq_eval(ctx, "pcases_%d" % k, "Definition cases : list pcase := [\n%s].\n" % ";\n".join(shards[k]), "pmismatches cases")
+        val, err = coq_eval(ctx, "%ss_%d" % (fl["rec"], k), "Definition cases : list %s := [\n%s].\n" % (fl["rec"], ";\n".join(shards[k])), fl["mism"] + " cases")
         if val is None:
             return k, None, err
         return k, [(int(a), int(b)) for a, b in re.findall(r"\((\d+),\s*(\d+)\)", val)], ""
@@ -381,10 +423,12 @@ def modelled_verdict(ctx, progs, results, native, decls):
             if code & 8: what.append("the model's flatten differs from the emitted code (case numbering / jumps / resume points)")
             if code & 32: what.append("compile p is not well-formed: the hypothesis of C02_flat_suspend_invariant_partial fails")
             if code & 64: what.append("the generated program violates src_ok, the hypothesis of C02_compile_wf")
-            ctx.violation("modelled-model-mismatch-%d" % code, "model and implementation disagree: " + "; ".join(what),
-                          dict(kind="modelled", source=p["src"], code=code, correspondence="Corr/C02_Eval.pcase_code"), concrete=False)
-    ctx.cov["modelled_model_mismatches"] = nmis
-    ctx.cov["modelled_programs_evaluated_in_coq"] = len(vcases)
+            if code & 128: what.append("the direct semantics of the extended language (rexec) differs from the compiled program's output")
+            if code & 256: what.append("run_flat (rcompile p) under some schedule differs from run_rdirect p")
+            ctx.violation("%s-model-mismatch-%d" % (kind, code), "model and implementation disagree: " + "; ".join(what),
+                          dict(kind=kind, source=p["src"], code=code, correspondence="Corr/C02_Eval.pcase_code" if kind == "modelled" else "Corr/C02_P4_Eval.%s_code" % fl["rec"]), concrete=False)
+    ctx.cov[kind + "_model_mismatches"] = nmis
+    ctx.cov[kind + "_programs_evaluated_in_coq"] = len(vcases)
 
 
 # ---------------------------------------------------------------- (B) rich programs
@@ -694,6 +738,15 @@ def correspond(ctx):
         p["src_direct"] = G.go_source(p, masks, blocking=False)
         p["nat"] = native_req(dict(files={"main.go": p["src"]}))
     ctx.cov["modelled_constructs"] = cnt
+    # VERIF_C02_RANGE_SCALE: extra factor for the range programs only (mutation experiments; default 1)
+    qprogs = gen_range(ctx, scaled((14 if ctx.quick else 150) * float(os.environ.get("VERIF_C02_RANGE_SCALE", "1"))))
+    cnt = {}
+    for p in qprogs:
+        construct_counts(p, cnt)
+        p["src"] = G.go_source(p, masks, blocking=True)
+        p["src_direct"] = G.go_source(p, masks, blocking=False)
+        p["nat"] = native_req(dict(files={"main.go": p["src"]}))
+    ctx.cov["range_constructs"] = cnt
     rprogs = []
     for i in range(scaled(20 if ctx.quick else 200)):
         p = R.rich_program(ctx.rng("rich-%d" % i), masks, static_only=(i % 3 == 0))
@@ -718,9 +771,9 @@ def correspond(ctx):
     th = threading.Thread(target=start_native)
     th.start()
 
-    def build_mod(i):
-        p = mprogs[i]
-        d = os.path.join(ctx.work, "m%d" % i)
+    def build_mod(i, progs=None, dirp="m"):
+        p = (progs or mprogs)[i]
+        d = os.path.join(ctx.work, "%s%d" % (dirp, i))
         rb = build_run(ctx, d, {"main.go": p["src"]})
         rd = build_run(ctx, os.path.join(d, "direct"), {"main.go": p["src_direct"]})
         js = open(os.path.join(d, "out.js")).read() if rb["build_rc"] == 0 else ""
@@ -735,6 +788,8 @@ def correspond(ctx):
 
     mresults = C.parallel_map(build_mod, range(len(mprogs)))
     ctx.log("modelled programs built and run")
+    qresults = C.parallel_map(lambda i: build_mod(i, qprogs, "q"), range(len(qprogs)))
+    ctx.log("range programs built and run")
     rresults = C.parallel_map(build_rich, range(len(rprogs)))
     ctx.log("rich programs built and run")
     presults = run_probes()
@@ -744,7 +799,8 @@ def correspond(ctx):
         return build_run(ctx, d, hprogs[i]["files"]), build_run(ctx, os.path.join(d, "direct"), hprogs[i]["files_direct"])
 
     hresults = C.parallel_map(build_hoist, range(len(hprogs)))
-    decls = harness_decls(ctx, [os.path.join(ctx.work, "m%d" % i) for i in range(len(mprogs))] + [g["dir"] for g in gs])
+    decls = harness_decls(ctx, [os.path.join(ctx.work, "m%d" % i) for i in range(len(mprogs))]
+                          + [os.path.join(ctx.work, "q%d" % i) for i in range(len(qprogs))] + [g["dir"] for g in gs])
     ctx.log("Decl.Blocking read from the archives")
     th.join()
     if "error" in holder:
@@ -757,6 +813,7 @@ def correspond(ctx):
     rich_verdict(ctx, rprogs, rresults, native)
     graphs_verdict(ctx, gs, decls)
     modelled_verdict(ctx, mprogs, mresults, native, decls)
+    modelled_verdict(ctx, qprogs, qresults, native, decls, FLAVOR_RANGE)
     ctx.cov["masks"] = masks
 
 
@@ -822,14 +879,20 @@ def replay(ctx, data):
 
 
 TECHNIQUE = ("Coq proof (schedule-independence of the resumable form by induction over executions; fixpoint soundness/minimality of the "
-             "blocking propagation) + differential correspondence with the real compiler on generated programs under all-mask yield "
+             "blocking propagation; semantic preservation of the range reduction by induction on the execution bound) + differential correspondence with the real compiler on generated programs under all-mask yield "
              "injection, native Go, the direct-form build, Decl.Blocking from the archives and the emitted code's skeleton")
 LEVEL_TEXT = ("Machine-checked theorems over an executable model of the emitted resumable function form (switch/$s/$c/$r frames, "
               "call resume pattern, $go resumption loop) and of propagateFunctionBlocking; the model is tied to the compiler on every "
               "run by compiling generated programs and comparing outputs under many suspension masks, Decl.Blocking flags and the "
-              "skeleton of the emitted JavaScript with the model's run_direct / run_flat / propagate / flatten.")
+              "skeleton of the emitted JavaScript with the model's run_direct / run_flat / propagate / flatten "
+              "(for range loops: run_rdirect / rcompile / flatten after desugar).")
 LEVEL_NOTE = ("Stage 1 (if/for/labels/break/continue/calls/return over integers) is modelled and fully proved: for every source "
               "program and every schedule run_flat (compile p) = run_direct p (C02_flat_suspend_invariant_partial; `_partial` only "
-              "w.r.t. the property text). Defers, panics, goto, switch, range, closures are reached by the differential runs only "
+              "w.r.t. the property text). Phase 4 adds `for k = range s` over a slice of integer length to the modelled and PROVED "
+              "fragment (C02_range_suspend_invariant_partial: every program of the extended language, every schedule; proved by showing "
+              "that the translator's own reduction of range to translateLoopingStmt preserves the direct semantics statement by statement, "
+              "C02_range_reduction_preserves_direct_semantics, and composing with stage 1; the direct semantics keeps the two frame slots "
+              "_ref/_i explicit, native Go is the independent oracle for it on every run; element values and range over arrays, strings, maps, "
+              "channels are not modelled). Defers, panics, goto, switch, closures are reached by the differential runs only "
               "(mask invariance, native Go, direct build); calls inside expressions by Model/C02_Hoist.v. Four genuine defects of the "
               "current tree are recorded as known findings (two hoisting/evaluation-order defects, two suspension-during-panic defects).")
